@@ -13,7 +13,7 @@ claims={
   note="Assumed: findIndicesAtWithState / FindIndices / lazy DFA SearchAt+SearchReverse return the reference match (uninterpreted refFound/refStart/refEnd with axioms refRange, refResume, refResumeNone); engine invariant dfaLink/anchoredLink. The remaining enumeration loops in regex.go (iterators, FindAllSubmatch, AppendAllIndex dst handling) are not yet under contract.",
   ref="DESIGN 6/C04"),
  "C05": dict(
-  text="Narrow: every loop of every function under contract carries a decreases measure that is proved non-negative and strictly decreasing (termination of the loop), which bounds the iterations of the simd kernels, Memmem candidate loops (searchStart strictly increases), enumeration loops (pos strictly increases), cache/table maintenance loops. No constant K over all patterns is derived and recursion depth/cost is not bounded.",
+  text="Narrow: every loop of every function under contract carries a decreases measure that is proved non-negative and strictly decreasing (termination of the loop), which bounds the iterations of the simd kernels, Memmem candidate loops (searchStart strictly increases), enumeration loops (pos strictly increases), cache/table maintenance loops. The anti-quadratic guard of the limited reverse scan is proved: (*lazy.DFA).SearchReverseLimited never reads a byte below max(start, minStart) (work-bound loop invariant), which is what keeps the reverse scans of successive suffix candidates disjoint. No constant K over all patterns is derived and recursion depth/cost is not bounded.",
   note="Per-call cost of PikeVM, lazy DFA, backtracker recursion and compile time are not decided by this check; map-iteration loops carry no measure.",
   ref="DESIGN 6/C05"),
  "C06": dict(
@@ -49,7 +49,7 @@ claims={
   note="Assumed: determinism of PikeVM / DFA search loops given these views; PikeVM scratch clearing; sync.Pool and atomic.Pointer hand-off. Two genuine defects found by these obligations were fixed in /repo (see known_findings.json).",
   ref="DESIGN 6/C13"),
  "C14": dict(
-  text="Narrow (support structures only): lazy StateID tag algebra (Offset/With*Tag/Is*Tag, safeOffset), onepass Transition packing (constructors and accessors are mutual inverses for next<=MaxStateID), cache clear protocol and row initialisation, isWordByte/checkLookAssertion safety.",
+  text="Narrow (support structures only): lazy StateID tag algebra (Offset/With*Tag/Is*Tag, safeOffset), onepass Transition packing (constructors and accessors are mutual inverses for next<=MaxStateID), cache clear protocol and row initialisation, isWordByte/checkLookAssertion safety. The give-up path of the reverse search is under contract against the reference answer (nfaFallbackReverse): open known finding, it returns a wrong start on caches too small for the automaton.",
   note="Not applicable part: that PikeVM, backtracker, lazy DFA determinisation/search, one-pass construction and NFA reversal return the reference answer - no contract within reach expresses this without a formal semantics of the compiled NFA.",
   ref="DESIGN 6/C14"),
  "C16": dict(
@@ -64,13 +64,19 @@ claims={
   text="Proved: BoundedBacktracker.CanHandle/reset keep len(Visited)==numStates*(len+1)<=maxVisitedSize; DFACache.Insert grows the transition table only when MemoryUsage (>=4*len(flatTrans)+8*len(stateList), proved lower bound) is below capacity and by at most two rows, registerState/getState bounds; cache clears drop the table.",
   note="Not decided: allocation counts (allocs/op) - a compiler/runtime quantity no source-level contract observes; heap reachable from a Regex via the frame engine is not built yet. MemoryUsage arithmetic treated as mathematical (opt math_int).",
   ref="DESIGN 6/C20"),
+ "C17": dict(
+  text="Narrow. Proved for all inputs: the literal-sequence algebra keeps the prefix/suffix guarantee - isPrefix, commonPrefix/commonSuffix, LongestCommonPrefix/Suffix return a prefix (suffix) of every literal; KeepFirstBytes leaves a prefix of every literal and clears Complete exactly on the shortened ones; Clone copies bytes, Complete and the partial-coverage flag; AllComplete, markAllInexact. Extractor limits: a prefix literal shortened to MaxLiteralLen is not Complete; an alternation whose literal list is cut after dedup is flagged partial (ghost: length after Dedup); and meta.CompileRegexp never installs a prefilter built from a partial-coverage set (wiring invariant, verified with every callee as a trusted stub). Four genuine defects found this way were fixed.",
+  note="Not under contract: CrossForward, Minimize, Dedup (existential coverage invariants did not discharge; Dedup has an assumed frame contract), the suffix and inner extraction (extractSuffixes has the same truncation defects by inspection - listed in DESIGN S.3, undecided), case-fold expansion, class expansion, the recursive extraction over the syntax tree (needs the language of an arbitrary AST). 'every match starts with one of the literals' for the extractor as a whole is therefore NOT decided. Assumed: []byte(string(runes)) length (rsbLen), sort.Slice not modelled.",
+  ref="DESIGN S.2/C17"),
+ "C19": dict(
+  text="Three fast paths are proved exact on the fragment their applicability test accepts, for every haystack and offset. (1) Character-class repetition: CharClassSearcher.SearchAt/Search/IsMatch return the leftmost maximal run of class bytes of length >= minMatch, and ExtractCharClassRanges accepts only a greedy + of an all-ASCII class. (2) Anchored literal ^prefix.*class+suffix$: MatchAnchoredLiteral returns true exactly when the input splits into prefix, wildcard (no newline unless (?s), at least one whole character for .+), class run and suffix (both directions, existential over the split, opaque witness predicate); DetectAnchoredLiteral accepts exactly concat(anchor, literal*, wildcard, [byte-decidable class +], literal, anchor) with case-sensitive literals and records what the matcher needs (table == class ranges, NotNL flag, UTF-8 of literals in the single-rune and ASCII cases); the engine entry points return [0,len] or nothing; CompileRegexp installs the info whenever the strategy is UseAnchoredLiteral. (3) extraction helpers: encodeRuneToBytes == UTF-8 arithmetic definition, buildCharClassTable, isByteClass. Seven genuine defects found on the way were fixed (lazy class, newline, case folding, Latin-1 literal, non-ASCII class, .+ in bytes, plus branch dispatch / first-byte set by probe).",
+  note="Not under contract: composite searchers (table and DFA form), branch dispatch and first-byte sets (repaired after differential probes, not yet specified), digit-run skipping, reverse-anchored / reverse-suffix / reverse-suffix-set / reverse-inner / multiline searchers (pre-existing disagreements with regexp seen by a seeding sub-agent are listed in DESIGN S.3, undecided). Assumed: that the reference semantics of the accepted fragment is alMatch (argument in DESIGN S.2/C19), SelectStrategy's start/end anchoring analysis (\\A and \\z), parser tree invariants (non-nil subtrees, valid runes), bytes.IndexByte, utf8.DecodeRune specs.",
+  ref="DESIGN S.2/C19"),
 }
 na_reason={
  "C01":"not claimed yet: the boolean dispatch layer (meta/ismatch.go) is not under contract; the leaf engines (PikeVM, lazy DFA, backtracker semantics) have no contract within reach. The regex.go Match adapters are proved equal to Engine.IsMatch under C11.",
  "C02":"not claimed yet: the span dispatch layer (meta/find_indices.go) is not under contract (its contract is an assumption of C04/C11); leaf engines out of reach.",
  "C15":"attempted and withdrawn: only Builder.AddByteRange and the 1-byte range are proved; the 2/3/4-byte UTF-8 range functions (shift/mask arithmetic as div/mod plus the builder heap) did not discharge on any installed solver, so no claim is made. Defects seen by probe (4-byte range over-approximation, non-ASCII fold-case literal) are recorded in DESIGN S.3 as undecided by any check.",
- "C17":"not built: literal.Seq algebra not under contract; the recursive extraction over the syntax tree has no specification within reach (language of an arbitrary AST).",
- "C19":"not built: specialised searchers not under contract (CharClassSearcher.FindAllIndices only has an assumed shape contract used by C04).",
 }
 checks=[]
 for p in props:
